@@ -851,6 +851,22 @@ impl ParamCurve for PathSeg {
             PathSeg::Cubic(cubic) => PathSeg::Cubic(cubic.subsegment(range)),
         }
     }
+
+    fn start(&self) -> Point {
+        match *self {
+            PathSeg::Line(line) => line.start(),
+            PathSeg::Quad(quad) => quad.start(),
+            PathSeg::Cubic(cubic) => cubic.start(),
+        }
+    }
+
+    fn end(&self) -> Point {
+        match *self {
+            PathSeg::Line(line) => line.end(),
+            PathSeg::Quad(quad) => quad.end(),
+            PathSeg::Cubic(cubic) => cubic.end(),
+        }
+    }
 }
 
 impl ParamCurveArclen for PathSeg {
